@@ -378,11 +378,11 @@ def variants(si, v, rng, n_random, n_perm):
         finally:
             PAD["rng"] = None
         if padded and meta["kind"] == "flow":
-            # the cell that selects the meaning of `message_text` (the row type) is read untrimmed by the flow row
-            # model's header_name_to_field_name_with_context (finding reported; KeyError on ' send_message'): not padded
+            # the cell that selects the meaning of `message_text` (the row type) is padded like any other cell: it is
+            # looked up trimmed (F-C09-b, fixed in 7d69602: the raw text was looked up, KeyError on ' send_message')
             tcol = (FLOW.get("spec") or sj)["main"][1]
-            if tcol in outs[-1][1]:
-                outs[-1][1][tcol] = v[tcol]
+            if tcol in outs[-1][1] and outs[-1][1][tcol] != v[tcol]:
+                FEAT["pad.type-cell(F-C09-b)" + ("+message_text" if sj["main"][0] in outs[-1][1] else "")] += 1
     base = list(outs)
     for _ in range(n_perm if base else 0):
         tag, cols = rng.choice(base)
@@ -815,6 +815,7 @@ def run(ck: core.Check):
                  "feature.star.unequal+broadcast.last-list-shorter", "values.router-style-edges",
                  "layout.encode+padded", "layout.short+padded", "feature.pad.unicode-space.packed-item",
                  "feature.pad.ascii-space.packed-item", "feature.pad.unicode-space.spread-cell",
+                 "feature.pad.type-cell(F-C09-b)+message_text",
                  "values.strings.zero-width-at-edge(kept by strip)"):
         if not ck.strata.get(need):
             raise core.Infra(f"generator self-check: stratum {need} is empty")
